@@ -160,3 +160,35 @@ Proof.
   - now apply open_read_fail.
   - now apply open_read_locate_fails.
 Qed.
+
+(* ---- the read side for EVERY outcome of (isfile, kpsewhich, first open) ---- *)
+(* the named file exists: it is the one and only file opened -- kpsewhich is not consulted,
+   whatever it would find -- and failing to open it is a pybtex error naming it *)
+Lemma open_existing_file rest filename mode enc tex kp :
+  is_write mode = false ->
+  (forall h, open_ (opener_st (OHandle h :: rest)) (TName filename) mode enc tex true kp
+     = (OpenOk h, {| script := rest; log := [((filename, mode), enc)] |})) /\
+  (forall e, open_ (opener_st (OEnvErr e :: rest)) (TName filename) mode enc tex true kp
+     = (OpenErr (open_error_message filename e), {| script := rest; log := [((filename, mode), enc)] |})).
+Proof.
+  intros W. split; intros; unfold open_; fold (is_write mode); rewrite W; reflexivity.
+Qed.
+
+(* whatever isfile says, whatever kpsewhich does (cannot be started / exit status / output),
+   whatever the one open() attempt yields short of a foreign exception: reading either returns
+   exactly the scripted handle, or raises a pybtex error that names the file asked for; at most
+   one file is opened *)
+Lemma open_read_total o rest filename mode enc tex isfile kp :
+  is_write mode = false -> o <> OOther ->
+  let '(r, st) := open_ (opener_st (o :: rest)) (TName filename) mode enc tex isfile kp in
+  ((exists h, r = OpenOk h /\ o = OHandle h) \/ (exists msg, r = OpenErr msg /\ infix filename msg = true))
+  /\ (length (log st) <= 1)%nat.
+Proof.
+  intros W NO. unfold open_. fold (is_write mode). rewrite W. unfold open_existing.
+  destruct isfile; [|destruct (kpsewhich kp) as [[|c q]| |]];
+    unfold opener_st, call_opener; cbn [script log app];
+    destruct o as [h|e|]; try congruence; cbn;
+    (split; [|lia]);
+    first [ left; eexists; split; reflexivity
+          | right; eexists; split; [reflexivity|apply message_names_file] ].
+Qed.
